@@ -162,7 +162,7 @@ func C11(r *simkit.Run) {
 	actions := t.Range("actions", 2, 8)
 	for a := 0; a < actions && !r.Failed(); a++ {
 		r.Step()
-		switch t.Weighted("action", 5, 2, 2, 1, 1, 2) {
+		switch t.Weighted("action", 5, 2, 2, 1, 1, 2, 1) {
 		case 1: // add a newer file
 			addFile(maxIdx()+1+t.Draw("gap", 2), false)
 			r.Logf("add newer file -> dir=%s", dirDesc())
@@ -194,6 +194,35 @@ func C11(r *simkit.Run) {
 			drv.Dirty = !drv.Dirty
 			r.Logf("dirty=%v", drv.Dirty)
 			r.Sample("database dirty=%v", drv.Dirty)
+			continue
+		case 6: // squash: the files the newest checkpoint replaces are removed from the directory
+			ck := -1
+			for i, f := range files {
+				if f.Checkpoint {
+					ck = i
+				}
+			}
+			if ck <= 0 {
+				continue
+			}
+			nd := &migrate.MemDir{}
+			for _, f := range files[ck:] {
+				var err error
+				if f.Checkpoint {
+					err = nd.WriteCheckpoint(f.Name, "", []byte(f.Body))
+				} else {
+					err = nd.WriteFile(f.Name, []byte(f.Body))
+				}
+				if err != nil {
+					simkit.Harnessf("squash: %v", err)
+				}
+			}
+			dir = nd
+			files = append([]*c11File(nil), files[ck:]...)
+			reseal()
+			r.Probe("files-squashed-into-checkpoint")
+			r.Logf("squash -> dir=%s", dirDesc())
+			r.Sample("the files older than the newest checkpoint are deleted (squash) -> dir: %s", dirDesc())
 			continue
 		case 5: // operator fixes the failing statement's cause
 			drv.FailAlways = map[string]bool{}
